@@ -125,7 +125,40 @@ def proof_side(pid, thorough=False):
     return agg
 
 
+def _cone_hash(vfile):
+    h = hashlib.sha256()
+    for f in sorted(dep_cone(vfile)):
+        h.update(f.encode()); h.update(open(os.path.join(COQ, f), "rb").read())
+    h.update(open(os.path.join(COQ, "_CoqProject"), "rb").read())
+    return h.hexdigest()
+
+
 def proof_side_file(pid, stem, thorough=False):
+    """cached by the content of the dependency cone (the Coq side does not depend on /repo): a cache hit
+    requires the .vo to be present and every file of the cone to be byte-identical"""
+    vfile = "Properties/%s.v" % stem
+    cache = os.path.join(BUILD, "proof", stem + (".thorough" if thorough else "") + ".cache.json")
+    try:
+        if os.path.exists(os.path.join(COQ, vfile)) and os.path.exists(os.path.join(COQ, vfile + "o")):
+            key = _cone_hash(vfile)
+            if os.path.exists(cache):
+                c = json.load(open(cache))
+                if c.get("key") == key and not c["result"]["failures"]:
+                    r = c["result"]; r["cached"] = True
+                    return r
+    except Exception:
+        key = None
+    r = proof_side_file_uncached(pid, stem, thorough)
+    try:
+        if not r["failures"]:
+            os.makedirs(os.path.dirname(cache), exist_ok=True)
+            json.dump({"key": _cone_hash(vfile), "result": r}, open(cache, "w"))
+    except Exception:
+        pass
+    return r
+
+
+def proof_side_file_uncached(pid, stem, thorough=False):
     """returns dict(obligations, discharged, failures[list of str], theorems[list], files[list], wall_s)"""
     t0 = time.time()
     vfile = "Properties/%s.v" % stem
